@@ -37,7 +37,21 @@ MUT = {
         "v19-table-points-to-old-constructor": [("src/spox/opset/ai/onnx/v19.py", "    \"Pad\": pad,\n", "    \"Pad\": _old_pad,\n"),
                                                 ("src/spox/opset/ai/onnx/v19.py", "from spox._var import Var\n", "from spox._var import Var\nfrom spox.opset.ai.onnx.v18 import pad as _old_pad\n")],
     },
-    "C18": {},
+    "C18": {
+        "plain-node-trims-trailing": [("src/spox/_node.py", "        return len(self.inputs)\n", "        return 0\n")],
+        "import-min-instead-of-max": [("src/spox/_schemas.py", "return {domain: max(v for _, v in group) for domain, group in grouping}", "return {domain: min(v for _, v in group) for domain, group in grouping}")],
+        "type-hook-overrides-preset": [("src/spox/_node.py", "            if var.type is None:  # If no existing type from init_output_vars\n                # Attempt to use the ones from kwargs, if none then what type inference gave\n                var.type = out_types.get(key)", "            if True:\n                var.type = out_types.get(key)")],
+        "value-attached-without-check": [("src/spox/_node.py", "                if prop.check():", "                if True:")],
+        "missing-hook-entry-raises": [("src/spox/_node.py", "                var.type = out_types.get(key)", "                var.type = out_types[key]")],
+        "no-missing-type-warning-at-critical": [("src/spox/_node.py", "        if _TYPE_WARNING_LEVEL <= TypeWarningLevel.NONE:\n            return", "        if _TYPE_WARNING_LEVEL <= TypeWarningLevel.CRITICAL:\n            return")],
+        "variadic-flattened-reversed": [("src/spox/_fields.py", "yield from ((f\"{key}_{i}\", v) for i, v in enumerate(value))", "yield from ((f\"{key}_{i}\", v) for i, v in enumerate(reversed(value)))")],
+        "opset-req-version-dropped": [("src/spox/_node.py", "        return {(self.op_type.domain, self.op_type.version)}", "        return {(self.op_type.domain, 1)}")],
+        "subgraph-opset-req-not-merged": [("src/spox/_build.py", "        opset_req |= subgraph_opset_req\n", "")],
+        "value-attached-to-untyped-var": [("src/spox/_node.py", "            if var.type is not None and var._value is None and key in out_values:", "            if var._value is None and key in out_values:")],
+        "value-overrides-preset": [("src/spox/_node.py", "            if var.type is not None and var._value is None and key in out_values:", "            if var.type is not None and key in out_values:")],
+        "attr-none-emitted-or-order": [("src/spox/_node.py", "        for key, attr in self.attrs.get_fields().items():\n            if attr is not None:", "        for key, attr in reversed(list(self.attrs.get_fields().items())):\n            if attr is not None:")],
+        "domain-dropped-in-nodeproto": [("src/spox/_node.py", "            doc_string,\n            self.op_type.domain,\n        )", "            doc_string,\n            \"\",\n        )")],
+    },
 }
 
 
